@@ -122,9 +122,12 @@ pub fn run(ctx: &mut Ctx) {
         let np = rng.below(7);
         let mut expr = Expression::new(f.clone());
         let mut params: Vec<Parameter> = Vec::new();
+        // the same expression assembled independently: function subject + one assertion per argument
+        let mut reference = Envelope::new(f.clone());
         for _ in 0..np {
             let p = if !params.is_empty() && rng.chance(1, 4) { rng.pick(&params).clone() } else { parameter(&mut rng) };
             let v = value(&mut rng, case);
+            reference = reference.add_assertion(Envelope::new(p.clone()), v.clone());
             expr = match rng.below(4) {
                 0 => expr.with_optional_parameter(p.clone(), Some(v)),
                 1 => expr.with_optional_parameter(parameter(&mut rng), None::<Envelope>).with_parameter(p.clone(), v),
@@ -139,6 +142,16 @@ pub fn run(ctx: &mut Ctx) {
         ctx.eval();
         ctx.count("expressions");
         let ee: Envelope = expr.clone().into();
+        if env_bytes(&ee) != env_bytes(&reference) {
+            ctx.violation("expression/differs-from-reference", "the expression's envelope differs from function + one assertion per (parameter, value) pair", J::obj(vec![("expression", jhex(&ee)), ("reference", jhex(&reference))]));
+        }
+        for p in &params {
+            let want_n = reference.assertions_with_predicate(Envelope::new(p.clone())).len();
+            if expr.objects_for_parameter(p.clone()).len() != want_n {
+                ctx.violation("expression/arguments-lost", "objects_for_parameter does not return every argument given for the parameter", jhex(&reference));
+            }
+        }
+        ctx.count("reference_envelope_compared");
         let et = tree_of(&ee);
         ctx.nontrivial(et.shape_hash());
         let subj = if et.kind == Kind::Node { &et.children[0] } else { &et };
